@@ -41,9 +41,9 @@ func c16TableSize() int {
 func c16Counts(tier string) (origin, table, vp, mixed int) {
 	t := (c16TableSize() + 19) / 20
 	if tier == "thorough" {
-		return c16OriginCases, t, 30, 40000
+		return c16OriginCases, t, 60, 80000
 	}
-	return c16OriginCases, t, 30, 2500
+	return c16OriginCases, t, 30, 8000
 }
 
 func init() {
